@@ -1,6 +1,6 @@
 (* Run/Exec_C14.v — executable entry point of the C14 and C16 correspondence checks.
    run op args = "<implementation model output>|<specification output>|<known-finding class or ->" *)
-From BSV Require Import Base.Hex Model.Opcodes Model.Script Model.Interp Spec.InterpBSV.
+From BSV Require Import Base.Hex Model.Opcodes Model.Script Model.Interp Spec.ScriptTok Spec.InterpBSV.
 
 (* Interpreter::from_script never carries a transaction *)
 Definition notx : Type := Empty_set.
@@ -105,14 +105,34 @@ Definition impl_run (bits : list bit) : string :=
   | RunOutOfFuel => "FUEL"
   end.
 
-(* specification: Bitcoin SV semantics on (main, alt), head of the list = top of the stack *)
-Definition spec_run (bits : list bit) : string :=
-  if covered bits then
-    match exec_script bits ([], []) with
-    | Some (s, a) => "OK:" +++ show_items (rev s) +++ ";" +++ show_items (rev a) +++ ";*;*"
-    | None => "ERR"
-    end
+(* specification: Bitcoin SV semantics of the token sequence read from the script BYTES by the
+   independent tokenizer; stacks are kept top-first there, so they are reversed for display *)
+Definition known_of (ts : list tok) : string :=
+  if cls_return ts then "op-return"
+  else if cls_shift ts then "shift-opcodes"
+  else if cls_num2bin ts then "num2bin"
+  else if cls_verif ts then "verif-conditional"
+  else if cls_unbalanced ts then "unbalanced-conditional"
+  else if cls_long_index ts ([], []) then "long-index-operand"
   else "-".
+
+(* (spec of interp.run, spec of interp.trace, known class) *)
+Definition analyse (bs : bytes) (canonical : bool) : string * string * string :=
+  if negb canonical then ("-", "-", "-")
+  else
+    match tokenize_spec bs with
+    | TokTruncDirect => ("ERR", "ERR", "truncated-direct-push")
+    | TokBad => ("-", "-", "-")
+    | TokOk ts =>
+        if covered ts then
+          match exec_script ts ([], []) with
+          | Some (s, a) =>
+              let r := show_items (rev s) +++ ";" +++ show_items (rev a) in
+              ("OK:" +++ r +++ ";*;*", "OK:F;" +++ r +++ ";*", known_of ts)
+          | None => ("ERR", "OK:E;*;*;*", known_of ts)
+          end
+        else ("-", "-", "-")
+    end.
 
 (* ---- interp.trace ---- *)
 Fixpoint trace_fuel (fuel : nat) (i : interp0) (last : string * string) (steps : string) : string :=
@@ -131,14 +151,6 @@ Fixpoint trace_fuel (fuel : nat) (i : interp0) (last : string * string) (steps :
   end.
 Definition impl_trace (bits : list bit) : string :=
   let i := start bits in trace_fuel (S (remaining notx i)) i ("", "") "".
-Definition spec_trace (bits : list bit) : string :=
-  if covered bits then
-    match exec_script bits ([], []) with
-    | Some (s, a) => "OK:F;" +++ show_items (rev s) +++ ";" +++ show_items (rev a) +++ ";*"
-    | None => "OK:E;*;*;*"
-    end
-  else "-".
-
 (* ---- interp.step_vs_run ---- *)
 Inductive stepped := SV (so : string) (n : N) (i : interp0) (last : string * string) | SVPanic | SVFuel.
 Fixpoint step_all (fuel : nat) (i : interp0) (n : N) (last : string * string) : stepped :=
@@ -201,21 +213,33 @@ Definition spec_step_vs_run : string :=
   "OK:*;*;*;*;*;*;*;*;*;*;*;*;*;*;*;-;1;1~OK:*;*;*;*;*;*;*;*;*;*;*;*;*;*;*;E1;1;1".
 
 (* ------------------------------------------------------------------ *)
-Definition with_bytes (a : string) (f : list bit -> string) : string :=
+Definition bits_eqb (a b : list bit) : bool := String.eqb (show_bits a) (show_bits b).
+
+Definition with_bytes (a : string) (f : list bit -> bytes -> bool -> string) : string :=
   match expand a with
   | None => "BADARG"
   | Some bs => match from_bytes bs with
-               | Ok bits => f bits
+               | Ok bits => f bits bs true
                | Err => "ERR|-|-"
                | Panic => "PANIC|-|-"
                end
   end.
-Definition with_tree (a : string) (f : list bit -> string) : string :=
-  match parse_tree a with None => "BADARG" | Some bits => f bits end.
+(* a hand-built tree is a script in the sense of C14 only when it is what the parser makes of
+   its own serialisation *)
+Definition with_tree (a : string) (f : list bit -> bytes -> bool -> string) : string :=
+  match parse_tree a with
+  | None => "BADARG"
+  | Some bits =>
+      let bs := to_bytes bits in
+      f bits bs (match from_bytes bs with Ok bits' => bits_eqb bits bits' | _ => false end)
+  end.
 
-Definition do_run (bits : list bit) : string := out3 (impl_run bits) (spec_run bits) (known_class bits).
-Definition do_trace (bits : list bit) : string := out3 (impl_trace bits) (spec_trace bits) (known_class bits).
-Definition do_svr (bits : list bit) : string := out3 (impl_step_vs_run bits) spec_step_vs_run "-".
+Definition do_run (bits : list bit) (bs : bytes) (canonical : bool) : string :=
+  let '(sr, _, k) := analyse bs canonical in out3 (impl_run bits) sr k.
+Definition do_trace (bits : list bit) (bs : bytes) (canonical : bool) : string :=
+  let '(_, st, k) := analyse bs canonical in out3 (impl_trace bits) st k.
+Definition do_svr (bits : list bit) (bs : bytes) (canonical : bool) : string :=
+  out3 (impl_step_vs_run bits) spec_step_vs_run "-".
 
 Definition run (op : string) (args : list string) : string :=
   match op, args with
